@@ -249,7 +249,16 @@ def _termination_idiom(ctx, fn, w: ast.While):
         adv = [s for s in A.walk_no_nested(ast.Module(w.body, [])) if isinstance(s, (ast.Assign, ast.AugAssign)) and v in A.names_in(s.targets[0] if isinstance(s, ast.Assign) else s.target)]
         if adv:
             return True, f"bounded walk: {v} advances towards {A.unparse(test.comparators[0])}"
-    # vendored SCC: `while queue:` / `while scc_queue and ...` with pop on every non-growing iteration
+    # (d) `while Q and <cond>:` whose body pops Q unconditionally and never grows it
+    if isinstance(test, ast.BoolOp) and isinstance(test.op, ast.And) and isinstance(test.values[0], ast.Name):
+        q = test.values[0].id
+        body_calls = [c for c in A.walk_no_nested(ast.Module(w.body, [])) if isinstance(c, ast.Call) and isinstance(c.func, ast.Attribute) and A.unparse(c.func.value) == q]
+        top_pops = [s for s in w.body if isinstance(s, (ast.Assign, ast.Expr)) and isinstance(s.value, ast.Call) and s.value in body_calls and s.value.func.attr in ("pop", "popleft")]
+        grows = [c for c in body_calls if c.func.attr in ("append", "extend", "insert", "appendleft", "add", "update")]
+        rebinds = [s for s in A.walk_no_nested(ast.Module(w.body, [])) if isinstance(s, (ast.Assign, ast.AugAssign)) and q in A.names_in(s.targets[0] if isinstance(s, ast.Assign) else s.target)]
+        conts = [s for s in A.walk_no_nested(ast.Module(w.body, [])) if isinstance(s, ast.Continue)]
+        if top_pops and not grows and not rebinds and not conts:
+            return True, f"every iteration pops {q}, which the condition requires to be non-empty, and nothing grows it"
     return False, f"'while {A.unparse(test)[:40]}' has no recognised variant"
 
 
@@ -715,6 +724,13 @@ def attr1(ctx) -> List[Ob]:
     for fn in ctx.prog.functions:
         env = ctx.typer.env(fn)
         for e in A.walk_no_nested(fn.node):
+            if isinstance(e, ast.Call) and isinstance(e.func, ast.Name) and e.func.id in ("isinstance", "issubclass") and len(e.args) == 2:
+                for b in (e.args[1].elts if isinstance(e.args[1], ast.Tuple) else [e.args[1]]):
+                    tb = ctx.typer.type_of(b, env, fn)
+                    kinds = {m[0] for m in T.members(tb)} if tb != T.ANY else set()
+                    if kinds and not (kinds & {"type", "module", "any"}) and kinds <= {"str", "cls", "list", "dict", "set", "int", "bool", "none", "float"}:
+                        out.append(bad("ATTR-1", fn.qualname, "isinstance class argument " + A.alpha_key(b), ctx.where(fn, e), f"'{A.unparse(e)[:60]}': the second argument is a {T.show(tb)} value, not a class: TypeError at run time"))
+                continue
             if not (isinstance(e, ast.Attribute) and isinstance(e.ctx, ast.Load) and isinstance(e.value, ast.Name)):
                 continue
             t = ctx.typer.type_of(e.value, env, fn)
